@@ -14,6 +14,8 @@ claims = {
          "astutil.Apply visiting every expression, the emitted encoder not reproducing the plaintext by chance, and the seed not reaching the binary are outside"),
  "C10": ("ground obligations over the real strip rules of stripRuntime (read from its switch) against the type-checked runtime sources of the installed GOROOT: every function that writes to stderr without the print builtins is emptied or only reachable through emptied functions; the statement's catalogue of crash printers is emptied; required-strip table matches; SMT contract of the print/println redirection closure; -tiny forwarded to the patched linker",
          "necessary conditions only: that these are all the ways the runtime reports a crash, exit statuses and recover semantics are runtime semantics outside any contract here; indirect calls through function values in the runtime are not followed"),
+ "C11": ("contracts on the control-flow helpers: generateKeys (count, non-zero, not blacklisted, pairwise distinct: full functional proof), always-false guard of trash blocks, positive arguments of every random choice and bounds in block splitting / junk / trash insertion, and a must-read frame over the SSA to AST converter (every semantic field of the SSA function and of each instruction kind is read)",
+         "necessary conditions only: that the emitted dispatcher, phi handling and instruction translation preserve behaviour is outside (no semantics of emitted statements); the dropped recover block is a listed known finding; one obligation about successor arrays is listed as unproved_not_claimed"),
  "C12": ("functional contracts of salt selection (hash input pinned as a term), determinism by self-composition: seeded names depend only on seed, import path and name; unseeded on the garble action ID; field names on struct shape and garble inputs; appendFlags/addGarbleToHash/seedFlag.Set",
          "SHA-256 and base64 are assumed contracts; 'differs under another seed' needs injectivity of SHA-256 and is not claimed"),
  "C14": ("decision contract at the point where ToObfuscate is recorded (spec written from the statement), no-match error, guard dominance of import path / package name functions",
